@@ -258,9 +258,10 @@ def tasks(tier):
     t = [('contracts.c04', 'task_restrict', dict(sc=s)) for s in range(7)]
     t.append(('contracts.c04', 'task_restrict_weights', {}))
     t += [('contracts.c04', 'task_restrict_model', dict(sc=s)) for s in range(7)]
-    from . import c04_control, c04_prolong
+    from . import c04_control, c04_prolong, c04_rgp
     t += c04_control.tasks(tier)
     t += c04_prolong.tasks(tier)
+    t += c04_rgp.tasks(tier)
     return t
 
 
@@ -269,7 +270,9 @@ LEVEL = ('Deductive proof over the real source: core.restrict equals the transpo
          'against the linear hat functions; hat weights non-negative and summing to one; _restrict_model_parameters sums exactly the '
          'children (slice algebra) for all seven patterns; restriction()/_get_restriction_weights wiring (control executor); prolongation() adds the '
          'interpolated transverse slice of coarse index I to the interior of fine index 2I, 2I+1 (or I) of the same component and writes nothing else '
-         '(generic iteration of each loop, all seven patterns), given the contract RGP of the interpolator.')
+         '(generic iteration of each loop, all seven patterns), given the contract RGP of the interpolator; RGP itself: the class RegularGridProlongator executed from source on '
+         'point-wise values (generic fine point, symbolic coarse / fine node vectors) returns the bilinear hat interpolant on every coarse interval pair containing the point.')
 ASSUMPTIONS = ['WF(grid): cell_centers are midpoints of consecutive nodes, h the node differences, coarse nodes every second fine node (established by meshes.BaseMesh and np.diff(nodes[::2]); checked concretely, not deductively)',
-               'RegularGridProlongator implements bilinear hat interpolation (contract RGP; bounded concrete check only)',
+               'numpy layout contracts used by the RGP proof (broadcast_arrays, ravel/reshape in Fortran order, searchsorted = first index, gather, np.where, masked store): listed in the trusted base; '
+               'preconditions of RGP (strictly increasing coarse nodes, fine nodes inside the coarse range) hold at the call sites because coarse nodes are every second fine node (WF)',
                'lemma: coarse nodes = origin + cumsum(diff(nodes[::r])) = nodes[::r] (telescoping sum, trusted)']
